@@ -124,6 +124,9 @@ var payloadPool = []payload{
 	{"unbalanced-quote", []string{`"abc`}, false, false},
 	{"unbalanced-quote", []string{`msg: 'it's`}, false, false},
 	{"tabs", []string{"\tfoo: bar"}, false, false},
+	{"long-line", []string{"{% set x = \"" + strings.Repeat("lorem ipsum ", 450) + "\" %}"}, false, false},
+	{"long-line", []string{strings.Repeat("a: [", 1200)}, false, false},
+	{"backslash", []string{`foo: "bar \`, `  baz\`}, false, false},
 	{"utf8", []string{`{% set msg = "→ done ✓" %}`}, false, false},
 	{"utf8", []string{`日本語: [`, `  é: "ü`}, false, false},
 	{"utf8", []string{`- alert: Ünïcödé`, `  expr: up == 0 — nope`}, false, false},
@@ -233,25 +236,30 @@ func genCase(t *rapid.T) Case {
 	relaxed := rapid.IntRange(0, 3).Draw(t, "relaxed") == 0
 	c := Case{Form: form, Rel: rel, Relaxed: relaxed, Point: point}
 
+	// the controlling comments are spelled with varying (legal) spacing, the same way in A and B
+	spell := func(what string) string {
+		return rapid.SampledFrom([]string{"# pint " + what, "#pint " + what, "#  pint   " + what + "  ", "# pint\t" + what, "#\tpint " + what}).Draw(t, "spell")
+	}
+	cLine, cNext, cBegin, cEnd := spell("ignore/line"), spell("ignore/next-line"), spell("ignore/begin"), spell("ignore/end")
 	// block builds the excluded block for one payload
 	block := func(form string, p payload) []string {
 		switch form {
 		case "line":
 			out := make([]string, 0, len(p.lines))
 			for _, l := range p.lines {
-				out = append(out, l+" # pint ignore/line")
+				out = append(out, l+" "+cLine)
 			}
 			return out
 		case "next-line":
 			var out []string
 			for _, l := range p.lines {
-				out = append(out, "# pint ignore/next-line", l)
+				out = append(out, cNext, l)
 			}
 			return out
 		case "begin-end":
-			out := []string{"# pint ignore/begin"}
+			out := []string{cBegin}
 			out = append(out, p.lines...)
-			return append(out, "# pint ignore/end")
+			return append(out, cEnd)
 		}
 		panic("form")
 	}
@@ -275,8 +283,9 @@ func genCase(t *rapid.T) Case {
 	case "file":
 		// everything after ignore/file is payload (the rest of the real document is replaced)
 		pa, pb := mk("pa", "file"), mk("pb", "file")
-		c.A = join(lines[:at], append([]string{"# pint ignore/file"}, pa.lines...), nil)
-		c.B = join(lines[:at], append([]string{"# pint ignore/file"}, pb.lines...), nil)
+		cFile := spell("ignore/file")
+		c.A = join(lines[:at], append([]string{cFile}, pa.lines...), nil)
+		c.B = join(lines[:at], append([]string{cFile}, pb.lines...), nil)
 		c.Payload, c.PintComment = pa.class+" | "+pb.class, pa.pint || pb.pint
 	case "mixed":
 		// adjacency / nesting: two excluded blocks of different forms back to back
